@@ -23,7 +23,7 @@ The history is executed on ONE object built from the spec.  Oracles (all on cano
 A violation is shrunk (filters / history steps removed while the same failure mode persists) so that the signature
 names the mechanism: failure mode, source kind, the minimal filter chain and the minimal history.
 """
-import os, sys, json, pickle, shutil, tempfile, warnings, itertools, gc
+import os, sys, json, time, random, pickle, shutil, tempfile, warnings, itertools, gc
 from collections import Counter
 
 ID    = "C04"
@@ -379,9 +379,9 @@ def gen_source(rng, allow_saved=True):
     if r < .92 or not allow_saved: return gen_src_custom(rng)
     return gen_src_saved(rng)
 
-def gen_src_syn(rng):
+def gen_src_syn(rng, n=None):
     which = rng.choice(["bandit", "linear", "neighbors", "kernel", "mlp"])
-    n = pick_n(rng)
+    n = pick_n(rng) if n is None else n
     ncf, naf = rng.choice([(0, 0), (2, 0), (0, 2), (3, 2), (1, 1)])
     if which == "bandit": ncf = naf = 0
     s = {"kind": "syn", "which": which, "n": n, "n_actions": rng.randint(2, 4), "ncf": ncf, "naf": naf, "seed": rng.randint(0, 50)}
@@ -392,8 +392,8 @@ def gen_src_syn(rng):
           "logged": False, "fb": False, "batched": False, "n": n}
     return s, st
 
-def gen_src_lambda(rng):
-    n = pick_n(rng)
+def gen_src_lambda(rng, n=None):
+    n = pick_n(rng) if n is None else n
     cp = rng.choice(CTX_PROFILES); ap = rng.choice(ACT_PROFILES)
     m = max(n, 1)
     ctx, ci = gen_contexts(rng, m, cp); acts, ai = gen_actions(rng, m, ap)
@@ -403,8 +403,8 @@ def gen_src_lambda(rng):
     st = {**ci, **ai, "rw": "list", "logged": False, "fb": False, "batched": False, "n": n}
     return s, st
 
-def gen_src_supxy(rng):
-    n = rng.choice([1, 2, 3, 4, 5, 6, 8, 10, 12, 26, 30])
+def gen_src_supxy(rng, n=None):
+    n = rng.choice([1, 2, 3, 4, 5, 6, 8, 10, 12, 26, 30]) if n is None else n
     cp = rng.choice(["value-num", "dense-num", "dense-num", "dense-mixed", "dense-num-none", "sparse-num", "sparse-mixed", "value-str", "dense-nested",
                      "dense-nested-cat", "dense-nested-cat", "sparse-nested-cat"])
     X, ci = gen_contexts(rng, n, cp)
@@ -419,12 +419,13 @@ def gen_src_supxy(rng):
     st = {**ci, "acts": acts, "hashable": True, "rw": "callable", "logged": False, "fb": False, "batched": False, "n": n}
     return s, st
 
-def gen_src_supsrc(rng):
-    n = rng.choice([1, 2, 3, 4, 5, 6, 8, 10, 12, 26, 30])
+def gen_src_supsrc(rng, n=None):
+    big = n is not None
+    n = rng.choice([1, 2, 3, 4, 5, 6, 8, 10, 12, 26, 30]) if n is None else n
     form = rng.choice(["pairs", "dense-labelcol", "sparse-labelcol"])
     labels = [rng.choice(["a", "b", "c"]) for _ in range(n)] if rng.random() < .7 else [rng.choice([0.5, 1, 2.5, 3]) for _ in range(n)]
     is_r = not isinstance(labels[0], str)
-    take = rng.choice([None, None, 1, 3, n, n+2])
+    take = rng.choice([None, None, 1, 3, n, n+2]) if not big else rng.choice([None, None, n//2 + 700, n, n+2])
     if form == "pairs":
         X, ci = gen_contexts(rng, n, rng.choice(["dense-num", "sparse-num", "value-num", "dense-mixed", "dense-nested-cat", "sparse-nested-cat"]))
         rows = [T(x, y) for x, y in zip(X, labels)]; label_col = None
@@ -445,10 +446,11 @@ def gen_src_supsrc(rng):
     st = {**ci, "acts": "empty" if is_r else "str", "hashable": True, "rw": "callable", "logged": False, "fb": False, "batched": False, "n": n}
     return s, st
 
-def gen_src_supfile(rng):
-    n = rng.choice([1, 2, 3, 4, 5, 6, 8, 10, 12, 26, 30])
+def gen_src_supfile(rng, n=None):
+    big = n is not None
+    n = rng.choice([1, 2, 3, 4, 5, 6, 8, 10, 12, 26, 30]) if n is None else n
     fmt = rng.choice(["csv", "csv", "arff", "arff", "arff-sparse", "libsvm", "manik"])
-    take = rng.choice([None, None, 2, n, n+1])
+    take = rng.choice([None, None, 2, n, n+1]) if not big else rng.choice([None, None, n//2 + 700, n, n+1])
     lt = None
     if fmt == "csv":
         w = rng.randint(1, 3); hdr = rng.random() < .6
@@ -486,8 +488,8 @@ def gen_src_supfile(rng):
     st = {"hashable": True, "rw": "callable", "logged": False, "fb": False, "batched": False, "n": n, **st}
     return s, st
 
-def gen_src_result(rng):
-    n = rng.choice([1, 2, 3, 5, 8, 12, 26, 30])
+def gen_src_result(rng, n=None):
+    n = rng.choice([1, 2, 3, 5, 8, 12, 26, 30]) if n is None else n
     k = rng.randint(2, 3)
     onehot = [[1 if i == j else 0 for j in range(k)] for i in range(k)]
     cols = {}
@@ -512,8 +514,8 @@ def gen_src_result(rng):
     if full: st["rw"] = "list"
     return s, st
 
-def gen_src_custom(rng):
-    n = pick_n(rng)
+def gen_src_custom(rng, n=None):
+    n = pick_n(rng) if n is None else n
     cp = rng.choice(CTX_PROFILES + ["absent"]); m = n
     logged_only = rng.random() < .3
     ctx, ci = gen_contexts(rng, m, cp) if cp != "absent" else ([None]*m, {"ctx": "absent"})
@@ -546,14 +548,15 @@ def gen_src_custom(rng):
         st = {**ci, **ai, "rw": rk, "logged": also_logged, "fb": False, "batched": False, "n": n}
     return {"kind": "custom", "interactions": inter, "as_list": rng.random() < .5}, st
 
-def gen_src_saved(rng):
-    inner, st = rng.choice([gen_src_syn, gen_src_lambda, gen_src_custom])(rng)
+def gen_src_saved(rng, n=None):
+    inner, st = rng.choice([gen_src_syn, gen_src_lambda, gen_src_custom])(rng, n)
+    if n is not None: st = dict(st, big=n)
     chain = []
     for _ in range(rng.randint(0, 2)):
         f = gen_filter(rng, st)
         if f: chain.append(f)
     # what is stored went through Finalize: lazies hardened, Categoricals one-hot, list rewards wrapped
-    st = dict(st); st["rw"] = "callable" if st["rw"] != "absent" else "absent"
+    st = dict(st); st["rw"] = "callable" if st["rw"] != "absent" else "absent"; st.pop("big", None)
     if st.get("acts") == "cat": st["acts"] = "onehot"
     if st.get("ctx") == "dense-mixed": st["ctx"] = "dense-mixed-final"
     return {"kind": "saved", "inner": inner, "chain": chain}, st
@@ -561,8 +564,12 @@ def gen_src_saved(rng):
 # =================================================================================================== generators: filters
 SEQ_LEVEL = ["Take", "Slice", "Shuffle", "Reservoir", "Riffle", "Cache", "Chunk", "Params", "Identity"]
 
-def gen_filter(rng, st):
-    """picks one applicable filter for the tracked kind `st`, updates `st` in place, returns its spec (or None)"""
+def gen_filter(rng, st, force=None):
+    """picks one applicable filter for the tracked kind `st`, updates `st` in place, returns its spec (or None).
+    force: this filter or nothing (None when it is not applicable to the tracked kind).
+    st['big'] = N (large-N cases): size parameters (Take, Slice, Reservoir, Where, Batch, Scale/Impute using, Cycle, Cache slices)
+    are drawn on the scale of N so that the stream stays long."""
+    big = st.get("big")
     sim = st["acts"] not in ("absent", "empty") and st["rw"] != "absent"
     has_ctx = st["ctx"] != "absent"
     cands = []
@@ -580,9 +587,31 @@ def gen_filter(rng, st):
         if (has_ctx and st["ctx"] != "none") or st["acts"] not in ("absent", "empty"): cands += ["Flatten"]
         if sim: cands += ["Binary", "Grounded", "Logged", "Logged"] + (["Cycle"] if st.get("hashable") else [])
         if st["logged"]: cands += ["OpeIPS", "OpeIPS", "Shuffle", "Shuffle"]
-    name = rng.choice(cands)
+    if force is not None:
+        if force not in cands: return None
+        name = force
+    else: name = rng.choice(cands)
     a = {}
-    if name == "Take":        a = {"n": rng.choice([0, 1, 2, 3, 5, 10, 25, 26, 100]), "strict": rng.random() < .2}
+    if big and name in ("Take", "Slice", "Reservoir", "Cache", "Where", "Batch", "Scale", "Impute", "Cycle", "Grounded"):
+        N = big
+        if name == "Take":        a = {"n": rng.choice([N, N-1, N+5, N//2 + 700, 4097, 1400]), "strict": rng.random() < .1}
+        elif name == "Slice":     a = {"start": rng.choice([None, 0, 1, 7]), "stop": rng.choice([None, None, N-3, N//2 + 700]), "step": rng.choice([1, 1, 1, 2])}
+        elif name == "Reservoir": a = {"n": rng.choice([None, N, N-1, N//2 + 700, 1400, 4097]), "seed": rng.choice([1, 2, 5, 0.5]), "strict": rng.random() < .1}
+        elif name == "Cache":     a = {"n_slice": rng.choice([25, 1, 2, 7, 1000, 4096])} if rng.random() < .5 else {}
+        elif name == "Where":
+            a = {"n_interactions": rng.choice([None, T(1000, None), T(1, None), T(None, 100000), T(1000, 100000)]),
+                 "n_actions": rng.choice([None, None, T(2, None), T(None, 4)]) if st["acts"] not in ("absent",) else None, "n_features": None}
+        elif name == "Batch":     a = {"size": rng.choice([1, 2, 3, 5, 64, 1000])}
+        elif name == "Scale":
+            shift = rng.choice([0, "min", "mean", "med", 1.5]); scale = rng.choice(["minmax", "std", "iqr", "maxabs", 2])
+            if st["ctx"].startswith("sparse"): shift = 0
+            a = {"shift": shift, "scale": scale, "using": rng.choice([None, None, 5, 1000, N, N+10])}
+        elif name == "Impute":    a = {"stat": rng.choice(["mean", "median", "mode"]), "indicator": rng.random() < .6, "using": rng.choice([None, None, 5, 1000, N])}
+        elif name == "Cycle":     a = {"after": rng.choice([0, 1, 5, N//2, N-1])}
+        elif name == "Grounded":
+            nu = rng.choice([1, 2, 3, 5, 10, 50]); nw = rng.randint(3, 8)
+            a = {"n_users": nu, "n_normal": rng.randint(0, nu), "n_words": nw, "n_good": rng.randint(1, nw-1), "seed": rng.randint(0, 9)}
+    elif name == "Take":      a = {"n": rng.choice([0, 1, 2, 3, 5, 10, 25, 26, 100]), "strict": rng.random() < .2}
     elif name == "Slice":     a = {"start": rng.choice([None, 0, 1, 2, 5]), "stop": rng.choice([None, None, 3, 8, 30]), "step": rng.choice([1, 1, 2, 3])}
     elif name == "Shuffle":   a = {"seed": rng.choice([0, 1, 2, 3, 7, 11, 100])}
     elif name == "Reservoir": a = {"n": rng.choice([None, 0, 1, 3, 5, 12, 30]), "seed": rng.choice([1, 2, 5, 0.5]), "strict": rng.random() < .15}
@@ -694,6 +723,96 @@ def gen_case(rng, tier="quick"):
     shape = {"ctx": st0.get("ctx"), "acts": st0.get("acts")}          # of the source, before the chain (for reach counters only)
     return {"source": source, "chain": chain, "view": view, "history": gen_history(rng, view, n, hl - 1), "shape": shape}
 
+# =================================================================================================== generators: large-N cases
+# The regular cases are small (at most 55 interactions): nothing that only shows once a bounded memo / cache / buffer inside a source
+# or filter has overflowed (lru caches, Cache's slices, reservoir buffers, 'using' windows) can be seen there.  A large-N case has a
+# few thousand interactions.  Its source is stored as a recipe {"kind": "gen", "of": <source kind>, "seed": s, "n": N}: the data are
+# re-generated from (of, seed, n) when the case is built (self-contained and JSON-able, but small enough to keep as a witness).
+LARGE_N    = 1400                        # a reference read with at least this many interactions counts as 'large'
+BIG_SIZES  = [1500, 2200, 2200, 3000, 3000, 4200, 5000]
+BIG_PRIMARY   = ["Grounded", "Cache", "Chunk", "Reservoir", "Shuffle", "Logged"]
+BIG_SECONDARY = ["Riffle", "Batch", "Scale", "Impute", "Densify", "Sort", "Cycle", "Noise", "Where", "Take", "Slice", "Sparsify",
+                 "Flatten", "Repr", "Finalize", "OpeIPS", "Unbatch", "Binary", "Params", None]
+BIG_TRANSFORMS = ["MATERIALIZE", "CACHE", "CHUNK", "PICKLE", "SAVE", None]
+# one round of large-N cases: every primary (size-sensitive) filter with every transformation, every other filter once
+BIG_ROUND = [(f, t) for f in BIG_PRIMARY for t in BIG_TRANSFORMS] + [(f, "?") for f in BIG_SECONDARY]
+BIG_PER_SHARD = {"quick": 7, "thorough": 49}
+BIG_SHRINK_S  = 30                       # wall-clock allowance for shrinking one large-N witness
+
+SRC_GENS = {"syn": gen_src_syn, "lambda": gen_src_lambda, "sup-xy": gen_src_supxy, "sup-src": gen_src_supsrc, "sup-file": gen_src_supfile,
+            "result": gen_src_result, "custom": gen_src_custom, "saved": gen_src_saved}
+_RESOLVED = {}
+def resolve_source(s):
+    """the full source spec behind a recipe (identity for ordinary source specs)"""
+    if s["kind"] != "gen": return s
+    key = (s["of"], s["seed"], s["n"])
+    if key not in _RESOLVED:
+        if len(_RESOLVED) > 3: _RESOLVED.clear()
+        _RESOLVED[key] = SRC_GENS[s["of"]](random.Random(s["seed"]), s["n"])
+    return _RESOLVED[key][0]
+
+def gen_history_big(rng, view, n, tr):
+    """[FULL] [PARTIAL] [transformation] FULL [PARTIAL | PARAMS] FULL [transformation FULL]: every transformation is followed by
+    at least one complete re-read, the first one by two"""
+    trs = ["CACHE", "CHUNK", "PICKLE"] + (["MATERIALIZE", "MATERIALIZE", "SAVE"] if view == "final" else [])
+    def full():
+        return ["FULL"] + ([rng.choice([0, 1, n//2, max(n-1, 0), n])] if rng.random() < .25 else [])
+    def partial():
+        k = rng.choice([1, 25, 26, 1000, 1366, 4097, n//2, max(n-1, 0), n, n+3])
+        op = ["PARTIAL", k, rng.choice(["close", "drop"])]
+        if rng.random() < .25: op.append(min(k, rng.choice([0, 1, k])))
+        return op
+    ops = []
+    if rng.random() < .5: ops.append(full())
+    if rng.random() < .35: ops.append(partial())
+    if tr == "?": tr = rng.choice(trs + [None])
+    if tr is not None: ops.append([tr])
+    ops.append(full())
+    r = rng.random()
+    if r < .3: ops.append(partial())
+    elif r < .5: ops.append(["PARAMS"])
+    ops.append(["FULL"])
+    if rng.random() < .3:
+        ops.append([rng.choice(trs)]); ops.append(["FULL"])
+    if rng.random() < .5: ops.append(["PARAMS"])
+    return ops
+
+def gen_big_case(rng, focus, tr):
+    """a large-N case whose chain holds `focus` (when it is applicable to some source) between 0-2 filters before and after it, and
+    whose history applies `tr` ('?': any) and re-reads completely afterwards"""
+    need_sim = focus in ("Grounded", "Logged", "Cycle", "Binary", "OpeIPS")
+    kinds = ["syn", "syn", "lambda", "custom", "custom", "sup-xy"] if need_sim else \
+            ["syn", "syn", "lambda", "lambda", "custom", "custom", "sup-xy", "sup-src", "sup-file", "result", "saved"]
+    for attempt in range(16):
+        N = rng.choice(BIG_SIZES)
+        of = rng.choice(kinds); seed = rng.randrange(2**31)
+        source = {"kind": "gen", "of": of, "seed": seed, "n": N}
+        _, st = SRC_GENS[of](random.Random(seed), N)
+        st = dict(st); st0 = dict(st); st["big"] = N
+        is_sim = st["acts"] not in ("absent", "empty") and st["rw"] != "absent"
+        if attempt < 15:
+            if need_sim and not is_sim: continue
+            # feedbacks are functions of the action: they can only be compared on actions they can be evaluated on
+            if focus == "Grounded" and not st.get("hashable"): continue
+        chain = []
+        for _ in range(rng.choice([0, 0, 1, 2])):
+            f = gen_filter(rng, st)
+            if f: chain.append(f)
+        if (focus == "OpeIPS" or (focus == "Shuffle" and rng.random() < .4)) and not st["logged"]:
+            f = gen_filter(rng, st, force="Logged")
+            if f: chain.append(f)
+        if focus is not None:
+            f = gen_filter(rng, st, force=focus)
+            if f is None and attempt < 15: continue
+            if f: chain.append(f)
+        for _ in range(rng.choice([0, 0, 1, 2])):
+            f = gen_filter(rng, st)
+            if f: chain.append(f)
+        break
+    view = "final" if tr in ("MATERIALIZE", "SAVE") else rng.choice(["raw", "final", "final"])
+    shape = {"ctx": st0.get("ctx"), "acts": st0.get("acts")}
+    return {"source": source, "chain": chain, "view": view, "history": gen_history_big(rng, view, N, tr), "shape": shape}
+
 # =================================================================================================== builders
 class ListEnv:
     """a caller-written environment over a caller-owned interaction list (re-iterable)"""
@@ -718,6 +837,7 @@ def build_source(s, tmp, owned, tag="src"):
     from coba.environments import Environments, CsvSource, ArffSource, LibSvmSource, ManikSource
     from coba.pipes import ListSource, IterableSource
     k = s["kind"]
+    if k == "gen": return build_source(resolve_source(s), tmp, owned, tag)
     if k == "syn":
         w = s["which"]; seed = s["seed"]
         if w == "bandit":    return Environments.from_bandit_synthetic(s["n"], s["n_actions"], seed)
@@ -933,7 +1053,11 @@ def run_history(spec, ctx=None):
         fresh_params, e = _lookup(fresh.env)              # what an identical object reports after one complete read
         if e is None: fresh_params = _subst(fresh_params, os.path.join(tmp, "fresh"), "$TMP")
         fsnap1 = snapshot_owned(fresh.owned)
-        if ctx is not None: ctx.extra["_n_ref"] = len(ref)
+        if ctx is not None:
+            ctx.extra["_n_ref"] = len(ref)
+            # feedbacks that evaluate to values (not to an exception) on the offered actions of the first interaction
+            fb = [v for it in ref[:1] if isinstance(it, tuple) for kv in it if isinstance(kv, tuple) and len(kv) == 2 and kv[0] == "feedbacks" for v in [kv[1]]]
+            ctx.extra["_fb_values"] = bool(fb) and fb[0][0] == "R" and bool(fb[0][1]) and not any(isinstance(x, tuple) and x[:1] == ("raise",) for x in fb[0][1])
         note("oracle.snapshot", len(fsnap0))
         for name in fsnap0:
             if fsnap0[name] != fsnap1.get(name):
@@ -995,9 +1119,15 @@ def run_history(spec, ctx=None):
                 else:
                     note("oracle.full-reread")
                     if len(first_full) >= 2: note("oracle.full-reread.two-or-more-interactions")
+                    large = len(first_full) >= LARGE_N
+                    if large: note("oracle.large-n.full-reread")
                     for s in set(since):
-                        if s in ("MATERIALIZE", "CACHE", "CHUNK", "PICKLE", "SAVE"): note(f"oracle.after.{s}")
-                        if s == "PARTIAL": note("oracle.full-after-partial")
+                        if s in ("MATERIALIZE", "CACHE", "CHUNK", "PICKLE", "SAVE"):
+                            note(f"oracle.after.{s}")
+                            if large: note(f"oracle.large-n.after.{s}")
+                        if s == "PARTIAL":
+                            note("oracle.full-after-partial")
+                            if large: note("oracle.large-n.full-after-partial")
                     after = ">".join(since) or "FULL"
                     if exc is not None:
                         viol.append((f"reread:raise:{type(exc).__name__}", f"full read after [{after}] raises {type(exc).__name__}: {exc}")); break
@@ -1012,6 +1142,7 @@ def run_history(spec, ctx=None):
                 except Exception as e: got, peeked, exc = None, _NOPEEK, e
                 n_reads += 1
                 note("oracle.partial-prefix")
+                if len(ref) >= LARGE_N and k >= LARGE_N: note("oracle.large-n.partial-prefix")
                 after = ">".join(since) or "nothing"
                 if exc is not None:
                     viol.append((f"partial:raise:{type(exc).__name__}", f"reading the first {k} interactions after [{after}] raises {type(exc).__name__}: {exc}")); break
@@ -1064,15 +1195,33 @@ def kind_of(mode):
         return "read-differs"                      # another order or other values
     return mode                                    # params:differ, params:raise:T, owned-modified:<what>, transform:<OP>:raise:T
 
-def shrink(spec, kind):
-    """greedy: drop history steps and filters, switch to the raw view, while a violation of the same kind persists"""
+def _is_big(spec):
+    return spec["source"]["kind"] == "gen" and spec["source"]["n"] > 55
+
+def shrink(spec, kind, allow_s=None):
+    """greedy: drop history steps and filters, switch to the raw view, while a violation of the same kind persists.  A large-N case
+    is first tried at an ordinary size (then at N/8, N/4, N/2): when the failure survives, size is not part of the mechanism; what
+    remains large is shrunk within a wall-clock allowance"""
     def still(s):
         try: status, v = _modes(s)
         except Exception: return False
         return status == "ok" and any(kind_of(m) == kind for m, _ in v)
     cur = json.loads(json.dumps(spec))
+    deadline = None
+    if _is_big(cur):
+        N = cur["source"]["n"]
+        for m in (40, N//8, N//4, N//2):
+            cand = dict(cur, source=dict(cur["source"], n=m))
+            if still(cand): cur = cand; break
+        if _is_big(cur):
+            deadline = time.time() + (BIG_SHRINK_S if allow_s is None else allow_s)
+            # every run is expensive: look for a single responsible filter before the step-by-step removal
+            for i in range(len(cur["chain"]) if len(cur["chain"]) > 1 else 0):
+                if time.time() >= deadline: break
+                cand = dict(cur, chain=[cur["chain"][i]])
+                if still(cand): cur = cand; break
     changed = True
-    while changed:
+    while changed and (deadline is None or time.time() < deadline):
         changed = False
         for i in range(len(cur["history"])):
             cand = dict(cur, history=cur["history"][:i] + cur["history"][i+1:])
@@ -1093,6 +1242,7 @@ def shrink(spec, kind):
     return cur
 
 def _src_label(s):
+    s = resolve_source(s)
     return s["kind"] if s["kind"] != "saved" else f"saved({s['inner']['kind']})"
 
 def signature(spec, kind):
@@ -1109,7 +1259,22 @@ def signature(spec, kind):
     else: after = "single-read"
     peeks = [op_peek(o) for o in spec["history"] if op_peek(o) is not None]
     if peeks: after += "+params-before-first-pull" if 0 in peeks else "+params-during-read"
+    if _is_big(spec): after += "+large-n"          # the failure did not survive at an ordinary size (or was never tried there)
     return f"{kind}/{where}/{after}"
+
+def _rereads_shared_objects(names, hist):
+    """two complete reads hand out the very same interaction objects (or shallow copies of them): the chain ends its Grounded part
+    in a Cache, or the history applies MATERIALIZE / CACHE / CHUNK, and two FULL reads follow with no PICKLE / SAVE in between"""
+    g = names.index("Grounded")
+    starts = [-1] if any(n == "Cache" for n in names[g+1:]) else []
+    starts += [i for i, h in enumerate(hist) if h in ("MATERIALIZE", "CACHE", "CHUNK")]
+    for t in starts:
+        fulls = 0
+        for h in hist[t+1:]:
+            if h == "FULL": fulls += 1
+            elif h in ("PICKLE", "SAVE"): fulls = 0
+            if fulls >= 2: return True
+    return False
 
 def check_case(spec, ctx=None, do_shrink=True):
     """-> [(sig, what, witness_spec)]"""
@@ -1124,11 +1289,17 @@ def check_case(spec, ctx=None, do_shrink=True):
         else:
             nontrivial = (bool(names) or any(h != "FULL" and h != "PARAMS" for h in hist)) and ctx.extra.get("_n_ref", 0) >= 2
             ctx.case((_src_label(spec["source"]), names, hist, spec["view"]), nontrivial=nontrivial)
-            ctx.count(f"reach.source.{spec['source']['kind']}")
+            ctx.count(f"reach.source.{resolve_source(spec['source'])['kind']}")
             for nme in set(names): ctx.count(f"reach.filter.{nme}")
             if "Shuffle" in names and ("Logged" in names[:names.index("Shuffle")] or spec["source"]["kind"] in ("result",) or
                                        any("action" in i for i in spec["source"].get("interactions", [])[:1])): ctx.count("reach.shuffle-on-logged")
             if ("Cache" in names or "CACHE" in hist or "CHUNK" in hist) and "PARTIAL" in hist: ctx.count("reach.cache-then-partial")
+            if ctx.extra.get("_n_ref", 0) >= LARGE_N:
+                ctx.count("reach.large-n")
+                ctx.count(f"reach.large-n.source.{_src_label(spec['source']).split('(')[0]}")
+                for nme in set(names): ctx.count(f"reach.large-n.filter.{nme}")
+                if "Grounded" in names and ctx.extra.get("_fb_values") and _rereads_shared_objects(names, hist):
+                    ctx.count("reach.large-n.feedbacks-reread-on-shared-interactions")
             shape = spec.get("shape", {})
             if "nested-cat" in str(shape.get("ctx")) or "nested-cat" in str(shape.get("acts")):
                 ctx.count("reach.nested-categorical")
@@ -1149,7 +1320,9 @@ def check_case(spec, ctx=None, do_shrink=True):
                 budget_ok = ctx.extra["_shrinks"] <= MAX_SHRINKS_PER_SHARD and ctx.time_left() > 5
             if not budget_ok:
                 out.append((f"unshrunk:{kind}/src={_src_label(spec['source'])}", what, spec)); continue
-            w = shrink(spec, kind)
+            allow = None
+            if ctx is not None and _is_big(spec): allow = min(BIG_SHRINK_S, max(5, (ctx.time_left() - 15) / 2))
+            w = shrink(spec, kind, allow)
             out.append((signature(w, kind), what, w))
         else:
             out.append((signature(spec, kind), what, spec))
@@ -1158,6 +1331,20 @@ def check_case(spec, ctx=None, do_shrink=True):
 # =================================================================================================== entry points
 def run_shard(ctx):
     sys.setrecursionlimit(10000)
+    # ---- large-N cases: a fixed number per shard, from their own stream (the regular cases are the same with and without them);
+    #      case g of the run takes entry g of BIG_ROUND, so that one round is complete after len(BIG_ROUND) cases
+    k_big = BIG_PER_SHARD.get(ctx.tier, 5)
+    brng = random.Random(f"{ctx.seed}/{ctx.prop}/{ctx.tier}/{ctx.shard}/large-n")
+    j = 0
+    while j < k_big and ctx.time_left() > 0:
+        g = j * ctx.nshards + ctx.shard
+        focus, tr = BIG_ROUND[g % len(BIG_ROUND)]
+        spec = gen_big_case(brng, focus, tr)
+        for sig, what, witness in check_case(spec, ctx):
+            ctx.violation(sig, what, witness)
+        if j < 1 and ctx.shard < 2: ctx.sample({"source": spec["source"], "chain": [f["f"] for f in spec["chain"]], "history": spec["history"], "view": spec["view"]})
+        j += 1
+    ctx.count("histories.large-n", j)
     i = 0
     while i < ctx.n and ctx.time_left() > 0:
         spec = gen_case(ctx.rng, ctx.tier)
@@ -1166,7 +1353,7 @@ def run_shard(ctx):
         if i < 1: ctx.sample({"source": _src_label(spec["source"]), "chain": [f["f"] for f in spec["chain"]], "history": spec["history"], "view": spec["view"]})
         i += 1
     ctx.count("histories", i)
-    ctx.extra.pop("_shrinks", None); ctx.extra.pop("_n_ref", None)
+    ctx.extra.pop("_shrinks", None); ctx.extra.pop("_n_ref", None); ctx.extra.pop("_fb_values", None)
     if i < ctx.n: ctx.extra["histories_skipped_for_time"] = ctx.n - i
 
 def replay(witness):
